@@ -58,6 +58,14 @@ class Clock(object):
             self.tripped = True
             raise BlockedLoop('time.sleep consumed %.3fs inside one loop callback' % self.blocked_in_callback)
 
+    def spend(self, d):
+        """virtual time consumed synchronously by the daemon itself (e.g. fork/exec): counts as blocking the loop"""
+        self.now += d
+        self.blocked_in_callback += d
+        self.blocked_total += d
+        if self.blocked_in_callback > self.blocked_max:
+            self.blocked_max = self.blocked_in_callback
+
     def new_callback(self):
         self.blocked_in_callback = 0.0
 
@@ -237,7 +245,7 @@ class Kernel(object):
             p.stdout = self.pipes.new_pipe(p, 'stdout') if stdout is not None else None
             p.stderr = self.pipes.new_pipe(p, 'stderr') if stderr is not None else None
         # fork/exec is not instantaneous: consecutive spawns never share a timestamp
-        self.clock.now += self.spawn_cost
+        self.clock.spend(self.spawn_cost)
         self.spawn_log.append({'t': p.t_spawn, 'pid': pid, 'argv': argv, 'cwd': cwd, 'env': env,
                                'close_fds': close_fds, 'shell': shell, 'tag': p.tag,
                                'executable': executable, 'call': self.calls})
